@@ -309,9 +309,19 @@ func c07() []*Ob {
 				if fn := c.Fn("(*frac.activeDataProvider).getIDsIndex"); fn != nil {
 					getL := Callee("(*frac.TokenLIDs).GetLIDs")
 					getV := Callee("(*frac.UInt64s).GetVals")
-					MustPrecede(c, fn, getL, "_all_ postings (GetLIDs)", getV, "mids/rids snapshot (GetVals)")
+					// the snapshot: the getter, or the guarded slice read directly (both under the lock, "at once")
+					snap := func(in ssa.Instruction) bool {
+						if cl, ok := in.(ssa.CallInstruction); ok && getV(cl) {
+							return true
+						}
+						return FieldLoad("frac.UInt64s", "vals")(in)
+					}
+					PrecedeI(c, fn, CallSel(getL), "_all_ postings (GetLIDs)", snap, "mids/rids snapshot (GetVals)")
 					for _, inv := range CallsIn(fn, Callee("frac.newInverser")) {
 						fromSnap := DerivesFrom(Arg(inv, 1), func(v ssa.Value) bool {
+							if in, ok := v.(ssa.Instruction); ok && snap(in) {
+								return true
+							}
 							cl, ok := v.(ssa.CallInstruction)
 							return ok && getV(cl)
 						})
@@ -613,9 +623,67 @@ func lockOrderCheck(c *Ctx, funcs []*ssa.Function) {
 		}
 		return m
 	}
+	// which object of a class a lock belongs to: the struct field the mutex's owner is reached through ("frac.Active.MIDs"),
+	// followed back through plain copies of that pointer into other structs (activeDataProvider.mids = active.MIDs)
+	fieldAlias := map[string]string{}
+	for _, fn := range c.P.Funcs {
+		if !c.P.InRepo(fn) || fn.Blocks == nil {
+			continue
+		}
+		for _, b := range fn.Blocks {
+			for _, in := range b.Instrs {
+				st, ok := in.(*ssa.Store)
+				if !ok {
+					continue
+				}
+				dt, df, _, okD := FieldOf(st.Addr)
+				ld, isLoad := st.Val.(*ssa.UnOp)
+				if !okD || !isLoad || ld.Op != token.MUL {
+					continue
+				}
+				stp, sf, _, okS := FieldOf(ld.X)
+				if !okS {
+					continue
+				}
+				if _, isPtr := st.Val.Type().Underlying().(*types.Pointer); !isPtr {
+					continue
+				}
+				fieldAlias[dt+"."+df] = stp + "." + sf
+			}
+		}
+	}
+	canon := func(k string) string {
+		for i := 0; i < 4; i++ {
+			n, ok := fieldAlias[k]
+			if !ok || n == k {
+				break
+			}
+			k = n
+		}
+		return k
+	}
+	instanceOf := func(call ssa.CallInstruction) string {
+		fa, ok := Receiver(call).(*ssa.FieldAddr) // &owner.mu
+		if !ok {
+			return ""
+		}
+		owner := fa.X
+		if ld, isLoad := owner.(*ssa.UnOp); isLoad && ld.Op == token.MUL {
+			if t, f, _, okF := FieldOf(ld.X); okF {
+				return canon(t + "." + f)
+			}
+		}
+		if t, f, _, okF := FieldOf(owner); okF {
+			return canon(t + "." + f)
+		}
+		return ""
+	}
 	type edge struct{ a, b string }
 	edges := map[edge]string{}
+	selfSites := map[string][]string{}        // class -> sites where a lock of the class is taken under another of the same class
+	instEdges := map[string]map[edge]string{} // class -> (held instance -> acquired instance) -> where
 	pathClass := map[string]string{}
+	pathInst := map[string]string{}
 	for _, fn := range funcs {
 		calls := CallsIn(fn, nil)
 		hasLock := false
@@ -623,6 +691,7 @@ func lockOrderCheck(c *Ctx, funcs []*ssa.Function) {
 			if isAcquire(call) {
 				hasLock = true
 				pathClass[FuncName(fn)+"|"+AccessPath(Receiver(call))] = classOf(call)
+				pathInst[FuncName(fn)+"|"+AccessPath(Receiver(call))] = instanceOf(call)
 			}
 		}
 		if !hasLock {
@@ -658,22 +727,50 @@ func lockOrderCheck(c *Ctx, funcs []*ssa.Function) {
 				}
 				for _, ac := range acquired {
 					e := edge{hc, ac}
+					where := fmt.Sprintf("%s at %s", FuncName(fn), c.P.Pos(call.Pos()))
 					if _, ok := edges[e]; !ok {
-						edges[e] = fmt.Sprintf("%s at %s", FuncName(fn), c.P.Pos(call.Pos()))
+						edges[e] = where
+					}
+					if hc == ac && isAcquire(call) {
+						selfSites[hc] = append(selfSites[hc], where)
+						hi, ai := pathInst[FuncName(fn)+"|"+path], instanceOf(call)
+						if instEdges[hc] == nil {
+							instEdges[hc] = map[edge]string{}
+						}
+						if _, ok := instEdges[hc][edge{hi, ai}]; !ok {
+							instEdges[hc][edge{hi, ai}] = where
+						}
 					}
 				}
 			}
 		}
 	}
 	// same-class nesting
-	for e, where := range edges {
-		if e.a == e.b {
-			if strings.HasPrefix(where, "(*frac.Active).AppendIDs") && e.a == "frac.UInt64s.mu" {
-				c.Site(token.NoPos, "same-class nesting %s only at %s (fixed order MIDs then RIDs)", e.a, where)
-				continue
-			}
-			c.Violation("lockorder:self:"+e.a, token.NoPos, "lock class %s is acquired while another lock of the same class is held (%s): two goroutines doing this in opposite object order deadlock", e.a, where)
+	// two locks of one class may be nested when every site that does it names the two objects (the struct fields they hang
+	// off, e.g. Active.MIDs then Active.RIDs) and all sites take them in the same object order
+	for e := range edges {
+		if e.a != e.b {
+			continue
 		}
+		bad := ""
+		for ie, where := range instEdges[e.a] {
+			switch {
+			case ie.a == "" || ie.b == "" || ie.a == ie.b:
+				bad = fmt.Sprintf("%s nests two locks of the class without a fixed pair of objects", where)
+			default:
+				if w2, rev := instEdges[e.a][edge{ie.b, ie.a}]; rev {
+					bad = fmt.Sprintf("%s takes %s then %s, %s takes them the other way round", where, ie.a, ie.b, w2)
+				}
+			}
+		}
+		if bad == "" && len(instEdges[e.a]) > 0 {
+			c.Site(token.NoPos, "same-class nesting of %s at %d site(s), always in one object order", e.a, len(selfSites[e.a]))
+			continue
+		}
+		if bad == "" {
+			bad = edges[e]
+		}
+		c.Violation("lockorder:self:"+e.a, token.NoPos, "lock class %s is acquired while another lock of the same class is held, and not in one fixed object order (%s): two goroutines doing this in opposite order deadlock", e.a, bad)
 	}
 	// cycle detection (ignoring self loops)
 	adj := map[string][]string{}
